@@ -454,14 +454,14 @@ PROPS["C15"] = Prop(
     assumptions=[
         "the generated parser passes a string token's (text, slots) payload unchanged into the AST, so V-strlit's postcondition is V-interp's precondition",
         "escape decoding: for a NON-interpolated literal the token text is proved equal to a forward-scan specification of the source (\\\\ \\\" \\$ \\n \\r \\xHH, "
-        "errors with the offending character and its position), also for an interpolated literal that contains no slot; for an interpolated literal WITH slots only the slot contract is proved, not the decoding outside the slots; "
+        "errors with the offending character and its position); for an interpolated literal the same with every `${..}` slot kept verbatim up to its matching brace (a slot that does not start with `{` is an error at that character); "
         "an unterminated literal (end of input before the closing quote) is outside the contract",
         "strings as byte vectors: `+`, `==`, indexing on bytes are covered by V-binop / V-eq / V-expr; ->len() (String::len after from_utf8) is a std contract",
         "the brace counter is an i32: inputs of 2^31 or more characters are outside the contract (a slot with 2^31 nested `{` would overflow it)",
         "the slot's own lexer + generated parser are external (uninterpreted)",
     ],
     trusted_base=VERUS_TRUST,
-    not_covered=["escape decoding in interpolated literals that contain a slot", "the parser"],
+    not_covered=["the parser"],
 )
 
 
